@@ -37,7 +37,7 @@ func TimingProbe(c *vlib.Ctx, r *vlib.Rand, backend, label string) {
 	}
 	for _, tr := range []string{"direct", "http", "grpc"} {
 		for _, d := range durs {
-			for _, form := range []string{"lease_ttl", "nack_delay", "nack_delay_batch", "extend_by"} {
+			for _, form := range []string{"lease_ttl", "nack_delay", "nack_delay_batch", "extend_by", "extend_by_twice"} {
 				seq++
 				id := fmt.Sprintf("t%04d", seq)
 				if err := w.h.Store.Enqueue(queue.Envelope{ID: id, Route: route, Target: "pull", Payload: []byte(id)}); err != nil {
@@ -86,6 +86,25 @@ func TimingProbe(c *vlib.Ctx, r *vlib.Rand, backend, label string) {
 					if rw, ok := row(id); !ok || rw.LeaseUntil != want {
 						viol("duration_not_honoured", tr, fmt.Sprintf("extend_by %s via %s: lease_until moved by %s", d, tr, time.Duration(rw.LeaseUntil-now-int64(30*time.Second))), wit)
 					}
+				case "extend_by_twice":
+					// a worker's heartbeat: the same extend_by again a little later; both are
+					// confirmed, so the lease must run to the end of the second extension
+					res, an := w.settle(tr, EvExtend, []string{lease}, d, false)
+					if an != "" || !res[lease] {
+						c.Inconclusive(fmt.Sprintf("timing probe %s: extend via %s failed: %s", label, tr, an))
+						return
+					}
+					w.clock.Advance(vlib.Pick(r, []time.Duration{0, time.Millisecond, time.Second, 20 * time.Second}))
+					res, an = w.settle(tr, EvExtend, []string{lease}, d, false)
+					if an != "" || !res[lease] {
+						viol("live_lease_extend_refused", tr, fmt.Sprintf("second extend_by %s via %s of a live lease was refused: %s", d, tr, an), wit)
+						_ = w.h.Store.Ack(lease)
+						continue
+					}
+					want = now + int64(30*time.Second) + 2*int64(d)
+					if rw, ok := row(id); !ok || rw.LeaseUntil != want {
+						viol("duration_not_honoured", tr, fmt.Sprintf("extend_by %s twice via %s (both confirmed): lease_until moved by %s in total", d, tr, time.Duration(rw.LeaseUntil-now-int64(30*time.Second))), wit)
+					}
 				}
 				// hidden until the instant, offered at it (SQLite sweeps expired leases at most
 				// once per 10ms of store clock: allow that granularity for lease expiry)
@@ -96,7 +115,7 @@ func TimingProbe(c *vlib.Ctx, r *vlib.Rand, backend, label string) {
 					continue
 				}
 				w.clock.AdvanceTo(time.Unix(0, want))
-				if form == "lease_ttl" || form == "extend_by" {
+				if form == "lease_ttl" || form == "extend_by" || form == "extend_by_twice" {
 					w.clock.Advance(10 * time.Millisecond)
 				}
 				got, err := w.dequeue("direct", 10, time.Minute)
